@@ -182,6 +182,10 @@ func Run(o Opts) (Result, error) {
 			res.Generated, _ = strconv.ParseInt(m[1], 10, 64)
 			res.Distinct, _ = strconv.ParseInt(m[2], 10, 64)
 		}
+		if strings.HasPrefix(line, "The number of states generated: ") {
+			n, _ := strconv.ParseInt(strings.TrimPrefix(line, "The number of states generated: "), 10, 64)
+			res.Generated, res.Distinct = n, n
+		}
 		if m := reDepth.FindStringSubmatch(line); m != nil {
 			res.Depth, _ = strconv.Atoi(m[1])
 		}
